@@ -451,6 +451,8 @@ elf_get_bits(struct kdump_shared *shared,
 	cur = first;
 	do {
 		next = addr_to_pfn(shared, pls->phys);
+		if (next > last)
+			break;
 		if (cur < next) {
 			clear_bits(bits, cur - first, next - 1 - first);
 			cur = next;
